@@ -3,3 +3,8 @@ chk('C12',
     'Trusted: ref/sqwdec.py (format as documented in the repository; no genuine Horace file offline); ASCII titles; frozen clock.',
     'explicit enumeration of all builder-call programs and configuration grid on the real code; independent decoder as reference model',
     'DESIGN.md section 6 C12')
+chk('C13',
+    'Exhaustive grid (pixel count x chunk x byte order x sink x input-unit set), experiment grid (runs x mode x efix/en shapes x angle/energy units x strings) and histogram-metadata grid; every file decoded by the independent decoder and compared field by field with the supplied values (pixels bitwise as float32), then read back with the package reader and compared incl. the physical dimension of every unit.',
+    'Trusted: ref/sqwdec.py; float32 rounding = numpy astype of the scipp-converted float64; (1,)-shaped efix/en whose shape the format cannot represent are not judged.',
+    'explicit enumeration of configuration grids on the real writer and reader; independent decoder as reference model',
+    'DESIGN.md section 6 C13')
